@@ -158,7 +158,7 @@ SD(n, name, ty)        == Mem(CText(n), name, ty, FALSE, "")           \* ty yie
 SchemaNames == {"McReq", "GaReq", "CpReq", "CmReq", "CmParams", "LbReq",
                 "Rp", "User", "DescRef", "Desc", "Param", "AuthOptions", "McExt", "GaExtIn",
                 "HmacIn", "GaExtOut", "GetInfoResp", "GetInfoOptions", "Certifications",
-                "McResp", "GaResp", "CpResp", "CmResp", "LbResp", "PackedStmt"}
+                "McResp", "GaResp", "CpResp", "CmResp", "LbResp", "PackedStmt", "CallerExt"}
 
 \* "indexed" (integer keys, strict) or "struct" (text keys, unknown tolerated)
 SchemaKind(s) ==
@@ -255,6 +255,11 @@ SchemaRaw(s, F) ==
     [] s = "GaExtOut" -> <<
         SO(N_hmacSecret, "hmacSecret", T_Bytes(80)),
         SOF(N_thirdPartyPayment, "thirdPartyPayment", T_Bool, TPP) >>
+    \* not a type of the crate: an extension-output type as a CALLER may define one (the
+    \* authenticator-data type is generic in it); the harness defines it the same way
+    [] s = "CallerExt" -> <<
+        SO(N_credBlob, "credBlob", T_Bytes(400)),
+        SO(N_hmacSecret, "hmacSecret", T_Bytes(400)) >>
     [] s = "GetInfoResp" -> <<                                \* CTAP 2.1 6.4, 2.2 adds 0x16-0x18
         IR(1,  "versions", T_Seq(T_EnumStr(VersionNames), 4)),
         IO(2,  "extensions", T_Seq(T_EnumStr(ExtensionNames), 4)),
